@@ -140,9 +140,9 @@ def chRow (mode : HMode) (out : DPOut) (other : List String) (rc m : String) (ρ
   else pure (some (chRowOf mode out other rc m ρ g (st g) w))
 
 /-- first occurrences, in order. -/
-def dedup {α : Type} [DecidableEq α] : List α → List α
+def hdedup {α : Type} [DecidableEq α] : List α → List α
   | [] => []
-  | a :: l => a :: (dedup l).filter (fun b => b != a)
+  | a :: l => a :: (hdedup l).filter (fun b => b != a)
 
 def isItem (rc : String) (items : List String) (r : Row) : Bool :=
   match r.get rc with
@@ -151,7 +151,7 @@ def isItem (rc : String) (items : List String) (r : Row) : Bool :=
 
 /-- the groups (values of the other identifiers) that hold at least one code item of the ruleset. -/
 def groupsOf (x : DS) (rc : String) (other items : List String) : List Row :=
-  dedup ((x.rows.filter (isItem rc items)).map (·.proj other))
+  hdedup ((x.rows.filter (isItem rc items)).map (·.proj other))
 
 /-- the datapoint of code item `ci` in group `g`. -/
 def probe (rc : String) (g : Row) (ci : String) : Row := g ++ [(rc, Value.str ci)]
